@@ -4,7 +4,7 @@
 (* failures of destinations toggled between the steps.  The worker steps are taken     *)
 (* eagerly (run to completion) so that only environment actions are enumerated.        *)
 EXTENDS Inbound, Json
-CONSTANTS Depth
+CONSTANTS Depth, GQos      \* GQos: the QoS levels the scripts publish at
 VARIABLES hist
 Rec(r) == hist' = Append(hist, r)
 GHosts == [m \in Msgs |-> CASE m = "m1" -> {1, 2} [] m = "m2" -> {2} [] m = "m3" -> {1} [] m = "m5" -> {2, 3} \cap Node [] OTHER -> {}]
@@ -15,7 +15,7 @@ GNext ==
   \/ /\ Busy /\ UNCHANGED hist                                     \* let the workers finish
      /\ \E r \in reqs : Resolve(r) \/ AckOrWithhold(r) \/ \E d \in Node : Store(r, d)
   \/ /\ ~Busy /\ Len(hist) < Depth
-     /\ \/ \E c \in Client, q \in 0..2, id \in Ids, m \in Msgs :
+     /\ \/ \E c \in Client, q \in GQos, id \in Ids, m \in Msgs :
              /\ Publish(c, q, id, m) /\ Rec([op |-> "pub", c |-> c, q |-> q, id |-> id, m |-> m, d |-> 0, how |-> ""])
         \/ \E c \in Client, id \in Ids :
              /\ (<<c, id>> \in Dom(hs) \/ id = 1)
